@@ -1,4 +1,5 @@
 import Feox.Props.C03
+import Feox.Proto.Generations
 /-!
 # C04 — recovery is idempotent, restartable and never discards a live record
 
@@ -53,5 +54,49 @@ function of `scan`'s result, which the theorems above show to be stable -/
 theorem winner_depends_on_disk_only {d : Disk} {hi lo : Nat} {L : List Rec} (h : TiledBy d hi L lo)
     (f : List Rec → α) : f ((scan d hi (hi - lo) lo).getD []) = f L := by
   rw [C03.recover_ok h]; rfl
+
+/-- **Recovery's own retirements are restartable at the level of generations, with TTL on and
+whatever the split into journal transactions**: stale generations first (any subset of them
+durably retired), expired winners only after all of those (any subset durably retired): the
+restarted recovery exposes, for every key, what the uninterrupted one exposed.
+(`recovery.rs scan_and_rebuild_indexes`: `retire_extents(stale)`, then
+`remove_expired_recovery_winners`, then `retire_extents(expired)`.) -/
+theorem recovery_retirement_restartable (now : Nat) (G : List Gens.Gen) (hnd : G.Nodup) (keep1 keep2 : Gens.Gen → Bool)
+    (h1 : ∀ k w, Gens.winner k G = some w → keep1 w = true)
+    (h2 : ∀ g ∈ Gens.winners G, keep2 g = false → Gens.expired now g = true) (k : Nat) :
+    Gens.exposed now k (G.filter keep1) = Gens.exposed now k G ∧
+    Gens.exposed now k ((Gens.winners G).filter keep2) = Gens.exposed now k G :=
+  Gens.two_phase_restartable now G hnd keep1 keep2 h1 h2 k
+
+/-- the hypotheses are met by a device with a stale generation, an expired winner and a live key,
+with a stale generation retired in phase 1 and the expired winner in phase 2 -/
+example :
+    let G : List Gens.Gen := [⟨1, 9, 100, 16⟩, ⟨2, 3, 0, 17⟩, ⟨1, 5, 0, 40⟩]
+    G.Nodup ∧ (∀ k w, Gens.winner k G = some w → (fun g => g != (⟨1, 5, 0, 40⟩ : Gens.Gen)) w = true) ∧
+    (∀ g ∈ Gens.winners G, (fun g => g != (⟨1, 9, 100, 16⟩ : Gens.Gen)) g = false → Gens.expired 200 g = true) ∧
+    Gens.exposed 200 1 G = none ∧ Gens.exposed 200 2 G = some ⟨2, 3, 0, 17⟩ := by
+  refine ⟨by decide, ?_, by decide, by decide, by decide⟩
+  intro k w h
+  have hm := Gens.winner_mem h
+  have : w ≠ (⟨1, 5, 0, 40⟩ : Gens.Gen) := by
+    intro hw
+    subst hw
+    have hk : k = 1 := hm.2.symm
+    subst hk
+    revert h
+    decide
+  simpa using this
+
+/-- the other order is NOT restartable: an expired winner retired while an older generation of
+its key is still valid brings the older value back on restart (what `retire_extents` did before
+the fix a78e7b4 when it needed more than one journal transaction; seeded change C04-2) -/
+theorem expired_first_resurrects :
+    let old : Gens.Gen := ⟨1, 5, 0, 40⟩
+    let new : Gens.Gen := ⟨1, 9, 100, 16⟩
+    let G := [new, old]
+    let keep : Gens.Gen → Bool := fun g => g != new
+    Gens.exposed 200 1 G = none ∧ Gens.exposed 200 1 (G.filter keep) = some old ∧
+    (∀ g ∈ G, keep g = false → Gens.expired 200 g = true) :=
+  Gens.expired_first_resurrects
 
 end Feox.C04
